@@ -110,6 +110,20 @@ func genC06(c *ctx) {
 		n = 8
 	}
 	c.quiescentStates(n, 2, chk)
+	// the hooks answer with nothing / with an error: a list that hooks may
+	// still extend is not complete
+	if len(c.sc.World.Hooks) > 0 {
+		for _, mode := range []string{"hook_empty", "hook_error"} {
+			c.add(&h.Event{K: "quiesce"})
+			c.eachFile(func(pi, fi int) {
+				c.add(&h.Event{K: "edit", Path: pi, File: c.rend[pi][fi].Name, Op: "full"})
+			})
+			c.add(&h.Event{K: "quiesce"})
+			c.add(&h.Event{K: "fault", Fault: mode, On: true})
+			c.add(&h.Event{K: "check", Check: &h.Check{Key: c.key(), Stride: 3, Kinds: []string{"completion"}}})
+			c.add(&h.Event{K: "fault", Fault: mode, On: false})
+		}
+	}
 }
 
 func genC12(c *ctx) {
